@@ -135,6 +135,7 @@ theorem popWrap_supp {sz : Nat} (m : M N) (i : Nat) (h0 : 0 < sz) (h : Supp sz m
   · split at ha
     · split at ha
       · cases ha; exact popRaw_supp h 0
+      · cases ha
       · cases ha; exact popRaw_supp (setStack_supp h 0 _ (Or.inl h0)) 0
     · cases ha; exact popRaw_supp h 0
   · split at ha
@@ -152,6 +153,7 @@ theorem popWrap_cur (m : M N) (i : Nat) : ∀ a, popWrap m i = .ok a → a.2.1.c
   · split at ha
     · split at ha
       · cases ha; exact pc _ _
+      · cases ha
       · cases ha; rw [pc]; rfl
     · cases ha; exact pc _ _
   · split at ha
